@@ -186,7 +186,7 @@ func runC19(c *Ctx) {
 	c.Rule("C19-D2", "publish before signal: in add(), every path to the send on `ready` first stores the packets; and every path from that store to return performs the send", 2)
 	for _, a := range []struct{ short, fn, recv string }{{"sio", "packetQueue.add", "pq"}, {"polling", "pollQueue.add", "pq"}} {
 		fn := p.Fn(a.short, a.fn)
-		recv := fn.Params[0].Name()
+		recv := vname(fn.Params[0])
 		isSig := func(in ssa.Instruction) bool {
 			if s, ok := in.(*ssa.Select); ok {
 				for _, st := range s.States {
@@ -222,7 +222,7 @@ func runC19(c *Ctx) {
 	c.Rule("C19-D3", "re-read after wake: once a token was received from `ready`, the consumer calls get() before it returns AND before it blocks again (a token consumed without re-reading strands the packets it announced)", 2)
 	for _, a := range []struct{ short, fn string }{{"sio", "packetQueue.poll"}, {"polling", "pollQueue.poll"}} {
 		fn := p.Fn(a.short, a.fn)
-		recv := fn.Params[0].Name()
+		recv := vname(fn.Params[0])
 		isGet := callPred(`\(\*` + a.short + `\.` + strings.Split(a.fn, ".")[0] + `\)\.get`)
 		isBlockingWait := func(in ssa.Instruction) bool {
 			switch x := in.(type) {
